@@ -79,12 +79,12 @@ def build(seed: int, cfg: dict):
             add(b["text"], "auto", "auto", m, b["id"], "sweep-wide")
     # twin-joined variants (program + renamed copy + statements joining both bodies): two equally good
     # candidates wherever a pass looks for "the" at-most-one / min-max / sum predicate of a body
-    for b in workload.load_twin():
+    for b in workload.load_twin() + workload.load_fat():
         ms = [workload.DEFAULT, workload.ALL][: cfg["wide_masks"]]
         while len(ms) < cfg["wide_masks"]:
             ms.append(rng.choice([1 << rng.randrange(9), workload.ALL ^ (1 << rng.randrange(9)), rng.randrange(512)]))
         for m in ms:
-            add(b["text"], "auto", "auto", m, b["id"], "sweep-twin")
+            add(b["text"], "auto", "auto", m, b["id"], "sweep-" + b["src"])
     multi = [b for b in safe if b["text"].count(".") >= 2]
     n = 0
     guard = 0
